@@ -9,7 +9,6 @@ import (
 	"encoding/hex"
 	"errors"
 	"fmt"
-	"io"
 	"log/slog"
 	"os"
 	"path/filepath"
@@ -85,6 +84,7 @@ type seqSub struct {
 	le        any
 	dropped   bool
 	afterStop bool
+	panicked  string // the wait function panicked with this value
 }
 
 type seqWorld struct {
@@ -439,11 +439,24 @@ func (w *seqWorld) newConfig(inst int, name string, key *ecdsa.PrivateKey) *ctlo
 		Cache:         filepath.Join(w.dir, fmt.Sprintf("cache-%d.db", inst)),
 		Backend:       &instBackend{w: w, inst: inst},
 		Lock:          &instLock{w: w, inst: inst},
-		Log:           slog.New(slog.NewTextHandler(io.Discard, &slog.HandlerOptions{Level: slog.LevelError + 4})),
+		Log:           slog.New(pausingLog{}),
 		NotAfterStart: time.Date(2024, time.January, 1, 0, 0, 0, 0, time.UTC),
 		NotAfterLimit: time.Date(2099, time.January, 1, 0, 0, 0, 0, time.UTC),
 	}
 }
+
+// pausingLog drops every record, but an error-level record costs its caller a few milliseconds: whatever the code
+// under check does around its error logging (closing a pool before or after recording the round's error, say) gets
+// a window in which the waiting submitters — plain goroutines, not scheduled actors — really run.
+type pausingLog struct{}
+
+func (pausingLog) Enabled(_ context.Context, l slog.Level) bool { return l >= slog.LevelError }
+func (pausingLog) Handle(context.Context, slog.Record) error {
+	time.Sleep(3 * time.Millisecond)
+	return nil
+}
+func (h pausingLog) WithAttrs([]slog.Attr) slog.Handler { return h }
+func (h pausingLog) WithGroup(string) slog.Handler      { return h }
 
 func (w *seqWorld) inst(i int) *seqInst {
 	for len(w.insts) <= i {
